@@ -208,17 +208,46 @@ def build_coq(ctx, targets=None, timeout=1500):
     lock.close()
 
 
-def scan_forbidden():
-  hits = []
-  for path in glob.glob(os.path.join(COQ, "**", "*.v"), recursive=True):
+def coq_closure(roots):
+  """Files of the development transitively required by the given .v files."""
+  seen = {}
+  todo = list(roots)
+  while todo:
+    rel = todo.pop()
+    if rel in seen:
+      continue
+    path = os.path.join(COQ, rel)
+    if not os.path.exists(path):
+      continue
     text = open(path).read()
-    # strip comments (non-nested is enough for our sources; nested handled by loop)
+    seen[rel] = text
+    for m in re.finditer(r"From\s+TFL\s+Require\s+(.*?)\.(?=\s|$)", text, flags=re.S):
+      for mod in m.group(1).split():
+        if mod not in ("Import", "Export"):
+          todo.append(mod.replace(".", "/") + ".v")
+    for m in re.finditer(r"Require\s+(.*?)\.(?=\s|$)", text, flags=re.S):
+      for mod in m.group(1).split():
+        if mod.startswith("TFL."):
+          todo.append(mod[len("TFL."):].replace(".", "/") + ".v")
+  return seen
+
+
+def scan_forbidden(roots=None):
+  """Scans the property's dependency closure (or the whole development) for
+  constructs that would declare an axiom or switch off a kernel check."""
+  hits = []
+  if roots is None:
+    files = {os.path.relpath(p, COQ): open(p).read()
+             for p in glob.glob(os.path.join(COQ, "**", "*.v"), recursive=True)}
+  else:
+    files = coq_closure(roots)
+  for rel, text in sorted(files.items()):
     prev = None
     while prev != text:
       prev = text
       text = re.sub(r"\(\*[^*(]*(?:\*(?!\))[^*(]*|\((?!\*)[^*(]*)*\*\)", " ", text)
     for m in FORBIDDEN.finditer(text):
-      hits.append("%s: %s" % (os.path.relpath(path, COQ), m.group(0)))
+      hits.append("%s: %s" % (rel, m.group(0)))
   return hits
 
 
@@ -381,7 +410,7 @@ def run_property(mod, ctx, replay_path=None):
   gen_problems = regenerate(ctx) if getattr(mod, "USES_GEN", False) else []
   ok_build, build_log, failing = build_coq(
       ctx, targets=["Props/%s.vo" % pid, "Harness/%s.vo" % mod.HMODULE])
-  forb = scan_forbidden()
+  forb = scan_forbidden(["Props/%s.v" % pid, "Harness/%s.v" % mod.HMODULE])
   ok_props, names, assum, props_log = (False, [], {}, "")
   if ok_build or True:
     try:
